@@ -187,6 +187,10 @@ def singles(ctx):
         for b in range(256):
             for s in ("%%%02X" % b, "%%%02x" % b, "x%%%02Xy" % b, "%%C3%%%02X" % b, "%%%02X%%A9" % b):
                 ctx.run("diff", cfg=cfg, s=s)
+        for d in gen.UNICODE_DIGITS:
+            # characters that str.isdigit()/int()/\\d accept but that are not ASCII hex digits must not form an escape
+            for s in ("%" + d + "1", "%4" + d, "%" + d + d, "a%" + d + "1b", "%" + d, "%41" + d):
+                ctx.run("diff", cfg=cfg, s=s)
 
 
 def asan(ctx, ks):
